@@ -185,9 +185,20 @@ def batch_check(ctx, c, outs):
         return f"{c['label']}: {len(vs)} directions projected in one call give an array of shape {whole.shape}"
     for i, v in enumerate(vs):
         one = np.asarray(project_impl(G, [v])[0], float)
-        if not np.abs(whole[i] - one).max() <= 1e-12 * max(1.0, float(np.linalg.norm(v))):
+        scale = max(1.0, float(np.linalg.norm(v)))
+        if not np.abs(whole[i] - one).max() <= 1e-12 * scale:
+            # on the sector boundary (some image within the tolerance of a wall) the representative is not unique and the
+            # property allows either: then the result of the joint call must still be a projection (an image of v inside the
+            # closed sector); off the boundary it must be THE projection
+            imgs = np.einsum("gij,j->gi", m, v)
+            near_wall = bool(len(n)) and float(np.min(np.abs(imgs @ n.T))) <= 4 * TOL_IN * scale
+            is_image = float(np.min(np.abs(imgs - whole[i]).max(axis=1))) <= 1e-9 * scale
+            inside = (not len(n)) or float(np.min(n @ whole[i])) >= -TOL_IN * scale
+            if near_wall and is_image and inside:
+                continue
             return (f"{c['label']}: direction {v.tolist()} projects to {whole[i].tolist()} when projected together with "
-                    f"{len(vs) - 1} others but to {one.tolist()} alone")
+                    f"{len(vs) - 1} others but to {one.tolist()} alone"
+                    + ("" if not near_wall else " (on the sector boundary, but the joint result is not an image of the direction inside the closed sector)"))
     # the same directions as crystal vectors (Miller) arranged in two dimensions: each position holds the projection of the
     # vector at THAT position
     nn = (len(vs) // 2) * 2
